@@ -1,0 +1,13 @@
+//go:build verif
+
+package mutating
+
+import (
+	apps "k8s.io/api/apps/v1"
+)
+
+// Exported view of handleDeployment for the verification harness, suite ctlpdeploy
+// (compiled only with -tags verif; add-only, untracked).
+func (h *WorkloadHandler) VerifPDeployHandleDeployment(newObj, oldObj *apps.Deployment) (bool, error) {
+	return h.handleDeployment(newObj, oldObj)
+}
